@@ -616,6 +616,32 @@ Proof.
   destruct c; reflexivity.
 Qed.
 
+(* an ODD leaf version does not survive the bytes: bit 0 of the first byte is the parity flag,
+   so ParseControlBlock returns version & 0xfe with the parity flag set, whatever the parity was *)
+Lemma first_byte_odd_version (v : byte) (o : bool) : N.testbit (n8 v) 0%N = true ->
+  N.testbit (n8 (b8 (N.lor (n8 v) (if o then 1%N else 0%N)))) 0%N = true /\
+  b8 (N.land (n8 (b8 (N.lor (n8 v) (if o then 1%N else 0%N)))) 0xfe%N) = b8 (N.land (n8 v) 0xfe%N).
+Proof.
+  destruct v; intro H; try (vm_compute in H; discriminate H); destruct o; vm_compute; split; reflexivity.
+Qed.
+
+Theorem parse_ser_cb_odd_version liftable c :
+  length (cb_key c) = 32 -> liftable (cb_key c) = true ->
+  (exists k, length (cb_proof c) = 32 * k /\ k <= 128) ->
+  N.testbit (n8 (cb_version c)) 0%N = true ->
+  parse_cb liftable (ser_cb c) =
+  Some (mk_cblock (cb_key c) true (b8 (N.land (n8 (cb_version c)) 0xfe%N)) (cb_proof c)).
+Proof.
+  intros Hk Hl (k & Hp & Hk128) Hv. unfold parse_cb, ser_cb.
+  cbn [length]. rewrite app_length, Hk, Hp. unfold cb_base_size, cb_max_size, cb_node_size.
+  replace (S (32 + 32 * k) <? 33) with false by (symmetry; apply Nat.ltb_ge; lia).
+  replace (33 + 32 * 128 <? S (32 + 32 * k)) with false by (symmetry; apply Nat.ltb_ge; lia).
+  replace (S (32 + 32 * k) - 33) with (k * 32) by lia. rewrite Nat.mod_mul by lia. cbn [Nat.eqb negb].
+  rewrite firstn_app, skipn_app, Hk, Nat.sub_diag, firstn_O, skipn_O, app_nil_r.
+  rewrite firstn_all2, skipn_all2 by lia. rewrite Hl. cbn [app].
+  destruct (first_byte_odd_version (cb_version c) (cb_odd c) Hv) as (-> & ->). reflexivity.
+Qed.
+
 (* a block of more than 128 proof nodes (more than 4129 bytes) is refused; the verification
    theorems themselves (proof_root, verify_commitment) hold for proofs of ANY length *)
 Lemma parse_cb_rejects_long liftable bs : cb_max_size < length bs -> parse_cb liftable bs = None.
